@@ -596,6 +596,7 @@ def r07_8(ctx, g):
 
 def r07_9(ctx, g):
     repo = ctx.repo
+    seqvar = "seq"
     f = repo.func("gaftools.gfa", "Node.to_gfa_line", "R07.9")
     ctx.analysed_func(f)
     ret = [r for r in walk_own(f.node) if isinstance(r, ast.Return)]
@@ -605,6 +606,7 @@ def r07_9(ctx, g):
         if isinstance(a, ast.BinOp) and isinstance(a.left, ast.List) and isinstance(a.right, ast.Name):
             e = [norm(x) for x in a.left.elts]
             ok = e[0] == "'S'" and e[1] == "self.id" and len(e) == 3
+            seqvar = e[2] if len(e) == 3 and e[2].isidentifier() else "seq"  # the local that carries the sequence column
             tags = a.right.id
             elem = None
             kv = None
@@ -641,15 +643,16 @@ def r07_9(ctx, g):
     from ..core import bool_table
 
     paths = enum_paths(f.node.body, rule="R07.9", where=f.where())
-    A_W, A_E = "with_seq", "self.seq == ''"
+    wparam = next((p_ for p_ in f.params if p_ != "self"), "with_seq")  # the flag parameter, whatever it is called
+    A_W, A_E = wparam, "self.seq == ''"
     bad = None
     for p in paths:
-        seqs = [norm(e.node.value) for e in p.events if e.kind == "stmt" and isinstance(e.node, ast.Assign) and norm(e.node.targets[0]) == "seq"]
+        seqs = [norm(e.node.value) for e in p.events if e.kind == "stmt" and isinstance(e.node, ast.Assign) and norm(e.node.targets[0]) == seqvar]
         if not seqs:
             bad = (p, "sequence column not set")
             continue
         # when every caller leaves with_seq at one constant the function is specialised on it: only that world exists
-        w_values = (True, False) if "with_seq" in names_in(f.node) else (True,)
+        w_values = (True, False) if wparam in names_in(f.node) else (True,)
         worlds = [(w, em) for w in w_values for em in (True, False)]
         for t, pol in p.tests():
             if isinstance(t, ast.Constant):
@@ -676,7 +679,7 @@ def r07_9(ctx, g):
         ba = ctx.repo.bound_args(run, c) or {}
         lmv = ba.get("low_memory")
         lm = const_value(lmv) if lmv is not None else None
-        ws = [pol for t, pol in gds if norm(t) == "with_sequence"]
+        ws = [canon_test(t, pol)[1] for t, pol in gds if canon_test(t, pol)[0] == "with_sequence"]
         if isinstance(lmv, ast.UnaryOp) and isinstance(lmv.op, ast.Not) and norm(lmv.operand) == "with_sequence":
             continue  # low_memory=not with_sequence: the same decision, spelled as an expression
         ok = ok and ws and lm == (not ws[0])
